@@ -22,6 +22,7 @@ package main
 // and the function waits for the display goroutine (join obligation).
 //@ func HandleMessages
 //@ requires config != nil
+//@ requires[C13,C09] config.TimeoutOnEOFMilliSeconds <= 1<<40 && config.WaitTimeOnEOFMilliseconds <= 1<<40
 //@ noterm runs until the input is exhausted
 //@ modifies gc("wr", writer), gb("wr", writer), gc("wrcalls", writer), gb("wroff", writer), config.SystemLog
 //@ ensures[C11] closed(messageChan)
